@@ -214,12 +214,16 @@ def deductive_eof(res, agg, tier):
 
 
 # ------------------------------------------------------------------ bounded: real fits
-def _reference(X, center, standardize):
+def _reference(X, center, standardize, coslat=None, weights=None):
     Z = np.array(X, dtype=complex if np.iscomplexobj(X) else float)
     if center:
         Z = Z - Z.mean(0)
     if standardize:
         Z = Z / X.std(0)
+    if coslat is not None:
+        Z = Z * np.sqrt(np.clip(np.cos(np.deg2rad(coslat)), 0, 1))
+    if weights is not None:
+        Z = Z * weights
     return Z
 
 
@@ -235,11 +239,21 @@ def eval_case(c):
     cls = getattr(xeofs.single, c["model"])
     if c["model"] == "ExtendedEOF":
         kw.update(tau=1, embedding=c.get("embedding", 2))
-    m = cls(**kw).fit(da, "time")
+    lat = wts = W = None
+    if c.get("coslat") or c.get("weights"):
+        lat = np.linspace(-75.0, 75.0, pp)
+        da = da.rename(x="lat").assign_coords(lat=lat)
+        if c.get("weights"):
+            wts = rng.uniform(0.5, 2.0, pp)
+            W = xr.DataArray(wts, dims=("lat",), coords={"lat": lat})
+        kw["use_coslat"] = bool(c.get("coslat"))
+        if not c.get("coslat"):
+            lat = None
+    m = cls(**kw).fit(da, "time", weights=W) if W is not None else cls(**kw).fit(da, "time")
     tol = 1e-8 if c["solver"] == "full" else 2e-4
     Zd = m.data["input_data"]
     if c["model"] in ("EOF", "ComplexEOF"):
-        Z = _reference(X, c["center"], c["standardize"])     # independent of the library's preprocessing
+        Z = _reference(X, c["center"], c["standardize"], lat, wts)     # independent of the library's preprocessing
         if real.relerr(Zd.values, Z) > 1e-9:
             return False, f"preprocessed matrix differs from the independent centring/scaling: {real.relerr(Zd.values, Z):.2e}"
     elif c["model"] == "ExtendedEOF":
@@ -322,6 +336,11 @@ def bounded_cases(tier, seed):
         if c["spec"] in ("random", "geometric") and c["p"] > 1:
             extra.append(dict(c, standardize=True))
     cases += extra
+    for model in ("EOF", "ComplexEOF"):
+        for coslat, weights in ((True, False), (False, True), (True, True)):
+            for std in (False, True):
+                cases.append(dict(model=model, n=20, p=6, spec="random", k=3, solver="full", cplx=model == "ComplexEOF", center=True, standardize=std,
+                                  scale=1.0, coslat=coslat, weights=weights, keep=coslat and weights))
     for model in ("HilbertEOF", "ExtendedEOF"):
         for (nn, pp) in ((20, 4), (30, 6)):
             for k in (1, 2, 3):
@@ -336,13 +355,15 @@ def bounded_cases(tier, seed):
         return c["solver"] == "full" or (c["solver"] == "auto" and c["k"] > int(0.8 * min(c["n"], c["p"])))
     cases = [c for c in cases if exact(c) or (c["spec"] == "geometric" and c["scale"] == 1.0)]
     if tier == "quick":
-        cases = real.subsample(cases, 90, rng)
+        cases = [c for c in cases if c.get("keep")] + real.subsample([c for c in cases if not c.get("keep")], 88, rng)
     return cases
 
 
 def run_bounded(res, tier, seed):
     for c in bounded_cases(tier, seed):
         sig = {k: c[k] for k in ("model", "spec", "solver", "center", "standardize")}
+        if c.get("coslat") or c.get("weights"):
+            sig["coslat"], sig["weights"] = bool(c.get("coslat")), bool(c.get("weights"))
         sig["shape"] = "n<p" if c["n"] < c["p"] else ("n=p" if c["n"] == c["p"] else ("p=1" if c["p"] == 1 else "n>p"))
         sig["scale"] = c["scale"]
         try:
@@ -366,19 +387,23 @@ def run(tier, seed):
                      "xeofs.single.eof:EOF._fit_algorithm", "xeofs.single.eof:EOF._augment_data",
                      "xeofs.single.eof:EOF._transform_algorithm", "xeofs.single.eof:EOF._inverse_transform_algorithm",
                      "xeofs.single.eof:EOF.explained_variance_ratio", "xeofs.single.eof:ComplexEOF._fit_algorithm",
-                     "xeofs.data_container.data_container:DataContainer.add", "xeofs.data_container.data_container:DataContainer.set_attrs"]
+                     "xeofs.data_container.data_container:DataContainer.add", "xeofs.data_container.data_container:DataContainer.set_attrs",
+                     "xeofs.single.eeof:ExtendedEOF._fit_algorithm (hand-over to the inner EOF)"]
     res.assumptions = ["float/complex arithmetic read as exact real/complex field arithmetic",
                        "Eckart-Young-Mirsky (optimality of the truncated SVD) is an axiom; the obligations prove that the reconstruction IS the truncated SVD",
                        "dimension names are parametric (fresh names §S/§F stand for all valid names)",
                        "termination not proved"] + [f"assumed library contract {k}: {v}" for k, v in lib.ASSUMED.items()
                                                     if k.startswith(("np.linalg.svd", "sklearn", "scipy", "dask"))] + [
         "contract of get_deterministic_sign_multiplier (entries +-1) is assumed here and checked under C15",
-        "HilbertEOF._augment_data / ExtendedEOF._fit_algorithm / the Preprocessor chain: bounded only under this property"]
+        "HilbertEOF._augment_data / the delay embedding of ExtendedEOF._fit_algorithm / the Preprocessor chain: bounded only under this property (ExtendedEOF's hand-over to its inner EOF is under a forwarding contract)"]
     res.trusted = ["CPython executing the traced functions on proxies", "vf/sym normaliser (AC rewriting, own code)",
                    "z3 4.x (scalar side conditions)", "assumed library contracts in vf/sym/lib.py", "xarray dot/apply_ufunc semantics as modelled by vf/sym/xda.py"]
     agg = Agg(res, "C01")
     deductive_decomposer(res, agg, tier)
     deductive_eof(res, agg, tier)
+    # ExtendedEOF / OPA / bootstrap members are EOF analyses of derived matrices: what they hand to the inner EOF (centring, names, options)
+    from props.C07 import deductive_inner_models
+    deductive_inner_models(res, agg)
     agg.flush()
     run_bounded(res, tier, seed)
     return res
